@@ -119,7 +119,11 @@ def apiRows : List Row := [
   -- step_async keeps `self.actions = actions` until the next step; read only inside the same step()
   { cls := "DummyVecEnv", call := "step", args := [("actions", .retainedDead)], res := stepRes },
   { cls := "SubprocVecEnv", call := "reset", args := [], res := [("obs", .fresh)] },
-  { cls := "SubprocVecEnv", call := "step", args := [("actions", .readOnly)], res := stepRes },
+  -- every worker message carries (info, last reset_info) pickled together: containers the sub-environment puts in
+  -- both are ONE object after unpickling, so `self.reset_infos` (an attribute nothing reads) keeps a dead reference
+  -- into the returned infos
+  { cls := "SubprocVecEnv", call := "step", args := [("actions", .readOnly)],
+    res := [("obs", .fresh), ("rewards", .fresh), ("dones", .fresh), ("infos", .freshRetained)] },
   -- VecNormalize helpers
   { cls := "VecNormalize", call := "get_original_obs", args := [], res := [("obs", .fresh)] },
   { cls := "VecNormalize", call := "get_original_reward", args := [], res := [("reward", .fresh)] },
